@@ -496,6 +496,11 @@ func (g *Gen) genWithdraw() Op {
 		var live []obtypes.OrderBookParticipation
 		for _, q := range parts {
 			if q.IsSettled {
+				// already paid, but its book is still being paid batch by batch: a paid depositor must not get anything more
+				if b, ok := g.c.App.OrderbookKeeper.GetOrderBook(ctx, q.OrderBookUID); ok && b.Status != obtypes.OrderBookStatus_ORDER_BOOK_STATUS_STATUS_SETTLED {
+					live = append(live, q)
+					g.stats["withdraw_candidate_paid_in_unsettled_book"]++
+				}
 				continue
 			}
 			if m, ok := g.c.App.MarketKeeper.GetMarket(ctx, q.OrderBookUID); ok && m.Status == markettypes.MarketStatus_MARKET_STATUS_RESULT_DECLARED {
@@ -917,24 +922,34 @@ func (g *Gen) genSubTopUp() Op {
 func (g *Gen) genSubWithdraw() Op { return Op{Kind: "SWDU", Signer: g.subOwner()} }
 
 func (g *Gen) genSubWager() Op {
+	if len(g.subOwners()) == 0 && g.chance(0.8) {
+		return g.genSubCreate() // nobody has a subaccount yet: a wager through one could only be refused
+	}
 	o := g.genWager()
 	if o.Kind != "WAG" {
 		return o
 	}
 	o.Kind = "SWAG"
-	if g.chance(0.10) && len(g.usedBets) > 0 {
+	replay := false
+	if g.chance(0.12) && len(g.usedBets) > 0 {
 		o.BetUID = pick(g.r, g.usedBets) // the id of an accepted bet, replayed through the subaccount message
 		g.stats["swag_replayed_uid"]++
+		replay = true // everything else about this wager is kept valid: the id is the only reason to refuse it
 	}
 	o.Signer = g.subOwner()
 	o.Ky = g.kycFor(o.Signer)
 	o.Inner = o.Signer
-	if g.chance(0.03) {
+	if g.chance(0.03) && !replay {
 		o.Inner = g.user()
 	}
 	o.Tk2 = o.Tk
 	o.Tk = g.ticket()
-	if g.chance(0.03) {
+	if replay {
+		lt := Ticket{Signer: int64(g.c.LeaderKey()), Exp: g.c.Time + 4000}
+		o.Tk, o.Tk2 = lt, lt
+		o.Ky = Kyc{Ignore: false, Approved: true, ID: o.Signer}
+	}
+	if g.chance(0.03) && !replay {
 		o.Tk2 = g.badTicket()
 	}
 	sub := new(big.Int).Set(o.Amount)
@@ -943,6 +958,23 @@ func (g *Gen) genSubWager() Op {
 		sub = big.NewInt(0)
 	case 1:
 		sub = new(big.Int).Rand(g.r, new(big.Int).Add(o.Amount, big.NewInt(1)))
+	}
+	if o.Signer >= 0 && int(o.Signer) < len(g.c.Acc) && g.chance(0.8) {
+		// mostly keep the subaccount's part within what it can pay (the main account pays the rest): otherwise nearly every wager through
+		// a subaccount is refused for lack of funds and the accepted path is hardly exercised
+		ctx := g.c.Ctx()
+		if sa, ok := g.c.App.SubaccountKeeper.GetSubaccountByOwner(ctx, g.c.Acc[o.Signer].Addr); ok {
+			if sum, ok2 := g.c.App.SubaccountKeeper.GetAccountSummary(ctx, sa); ok2 {
+				can := sum.Available()
+				if b := g.c.Bal(sa); b.LT(can) {
+					can = b
+				}
+				if can.IsInt64() && !can.IsNegative() && can.BigInt().Cmp(sub) < 0 {
+					sub = can.BigInt()
+					g.stats["swag_sub_part_capped"]++
+				}
+			}
+		}
 	}
 	o.SubDed = sub
 	o.MainDed = new(big.Int).Sub(o.Amount, sub)
@@ -956,6 +988,9 @@ func (g *Gen) genSubWager() Op {
 			o.SubDed = new(big.Int).Sub(o.Amount, o.MainDed)
 			g.stats["swag_main_whole_balance"]++
 		}
+	}
+	if replay {
+		return o
 	}
 	if g.chance(0.04) && o.Amount.Sign() > 0 {
 		// a negative main-account part: the subaccount would pay more than the bet costs and the difference would land, free, in the
@@ -972,6 +1007,9 @@ func (g *Gen) genSubWager() Op {
 }
 
 func (g *Gen) genSubHouseDeposit() Op {
+	if len(g.subOwners()) == 0 && g.chance(0.8) {
+		return g.genSubCreate()
+	}
 	o := g.genDeposit()
 	if o.Kind != "DEP" {
 		return o
@@ -1358,6 +1396,42 @@ func (g *Gen) withdrawInWindow() (Op, bool) {
 	return Op{Kind: "MADD", Signer: g.user(), Tk: lt(), UID: uid, Start: g.c.Time - 5, End: g.c.Time + 60000, Status: 1, Odds: odds}, true
 }
 
+// withdrawAfterPayout: more houses deposit on a fresh market than one block pays out; the market is resolved, and in each of the
+// following blocks - while the book is being paid batch by batch - the house paid first asks for a full withdrawal again: a depositor
+// that has been paid must not get anything more, whatever the state of the rest of the book (C01, C04, C09).
+func (g *Gen) withdrawAfterPayout() (Op, bool) {
+	cfg := g.c.Cfg
+	minDep := cfg.House.MinDeposit.Int64()
+	batch := int64(cfg.Orderbook.BatchSettlementCount)
+	if batch > 5 || minDep <= 0 || minDep > cfg.Balance/16 || int64(len(g.c.Acc)) < 3 {
+		return Op{}, false
+	}
+	uid := g.nextMkt
+	g.nextMkt++
+	odds := []int64{uid * 10, uid*10 + 1}
+	lt := func() Ticket { return Ticket{Signer: int64(g.c.LeaderKey()), Exp: g.c.Time + 4000} }
+	ky := func(x int64) Kyc { return Kyc{Ignore: false, Approved: true, ID: x} }
+	var seq []Op
+	first := int64(-1)
+	for i := int64(0); i < batch+1+int64(g.r.Intn(2)); i++ {
+		h := g.user()
+		if first < 0 {
+			first = h
+		}
+		seq = append(seq, Op{Kind: "DEP", Signer: h, Tk: lt(), Mkt: uid, Amount: bi(minDep + g.r.Int63n(minDep+1)), Ky: ky(h), Depositor: -1})
+	}
+	st := []int64{3, 4, 5}[g.r.Intn(3)]
+	res := Op{Kind: "MRES", Signer: g.user(), Tk: lt(), UID: uid, Rts: g.c.Time, Status: st}
+	if st == 5 {
+		res.Winners = []int64{odds[0]}
+	}
+	seq = append(seq, res)
+	g.pending = append(g.pending, seq...)
+	g.deferred = append(g.deferred, deferredWdr{mkt: uid, owner: first, left: 3})
+	g.stats["withdraw_after_payout_script"]++
+	return Op{Kind: "MADD", Signer: g.user(), Tk: lt(), UID: uid, Start: g.c.Time - 5, End: g.c.Time + 60000, Status: 1, Odds: odds}, true
+}
+
 // subParamFlip: a subaccount deposits as a house on a fresh market, then the subaccount module's parameters are updated (an endpoint is
 // switched off) BEFORE the market is resolved and the participation settled: settlement, refunds and the ledger bookkeeping of what was
 // accepted under the old parameters must not depend on the new ones (C17: the ledgers stay sound under every accepted parameter history).
@@ -1457,6 +1531,11 @@ func (g *Gen) NextTx() Op {
 	}
 	if (g.profile == "bet" || g.profile == "sub") && g.chance(0.015) {
 		if o, ok := g.withdrawInWindow(); ok {
+			return o
+		}
+	}
+	if (g.profile == "bet" || g.profile == "sub") && g.chance(0.012) {
+		if o, ok := g.withdrawAfterPayout(); ok {
 			return o
 		}
 	}
